@@ -15,7 +15,7 @@ RULE = ('Hypothesis draws one of the 2x2 client/server pairs (threaded Client or
         'dispatch mode and a conversation: bursts of 1..40 sends in either direction with text / '
         'JSON / binary payloads, message handlers on either or both sides that answer each message with a send() of their own, sends from inside the client connect handler (queued across the '
         'upgrade), idle periods of up to 50 (quick) / 300 (thorough) heartbeat cycles, with or '
-        'without settling between steps, and a disconnect by either side at the end. Oracle: each '
+        'without settling between steps, and a disconnect by either side at the end (that of the server possibly right after a burst of 1..40 sends). Oracle: each '
         "side's message log equals the other side's send log (exactly once, in order, equal "
         'payloads); no disconnect on either side while both are connected; after a disconnect by '
         'either side each side logs exactly one disconnect. Non-trivial: a burst over 16 on '
@@ -82,7 +82,10 @@ def case_st(draw):
     # request / response conversations: a message handler that answers every message it gets with
     # a send() of its own before returning (replies themselves are not answered)
     echo = draw(st.sampled_from([None, None, None, 'server', 'client', 'both']))
-    return {'impl': impl, 'server': server, 'transports': transports, 'I': I, 'T': T, 'echo': echo,
+    # sends issued by the application right before its disconnect(sid): what was queued before
+    # the CLOSE is written before it (judged on WebSocket, where the writer drains the queue)
+    end_burst = draw(st.sampled_from([0, 0, 0, 1, 15, 16, 17, 40]))
+    return {'impl': impl, 'server': server, 'transports': transports, 'I': I, 'T': T, 'echo': echo, 'end_burst': end_burst,
             'async_handlers': draw(st.booleans()), 'steps': steps, 'end': end,
             'send_in_connect': pre, 'server_greets': greets, 'delays': delays, 'grace': grace}
 
@@ -218,6 +221,12 @@ def check_case(case, ctx=None, idle_scale=1.0):
         if end == 'client':
             h.client_call('disconnect')
         elif end == 'server':
+            burst = case.get('end_burst', 0) if tr != 'polling' else 0
+            for i in range(burst):
+                d = tagged('s', 9000 + i, 'last')
+                if not echo:
+                    ssent.append(d)
+                h.world.call('send', sid, d)
             h.world.call('disconnect', sid)
         if end != 'none':
             h.settle()
@@ -232,6 +241,9 @@ def check_case(case, ctx=None, idle_scale=1.0):
             if h.client.state != 'disconnected':
                 raise V(impl, 'client-not-disconnected', '%s|by-%s' % (tr, end),
                         'client state %r' % h.client.state, rep)
+            if end == 'server' and tr != 'polling' and case.get('end_burst', 0):
+                check_logs(h, impl, case, csent, ssent, rep, tr + '|sent-right-before-disconnect',
+                           only='server->client')
         if ctx:
             big = any(len(s.get('msgs', [])) > 16 for s in case['steps'])
             idle = sum(s.get('cycles', 0) for s in case['steps'])
@@ -247,6 +259,9 @@ def check_case(case, ctx=None, idle_scale=1.0):
                 cls.append('handlers-taking-time')
             if echo:
                 cls.append('message-handler-replies-' + echo)
+            if case['end'] == 'server' and tr != 'polling' and case.get('end_burst', 0):
+                cls.append('sends-right-before-server-disconnect' + (
+                    '>=16' if case['end_burst'] >= 16 else ''))
             if case.get('grace') is not None:
                 cls.append('interval-with-grace-%s' % case['grace'])
             ctx.case(rep, nt, cls)
@@ -265,11 +280,13 @@ def check_no_disconnect(h, impl, rep, tr, when):
                 [(round(t - 2 ** 20, 3), a) for t, a in sd], h.client.state), rep)
 
 
-def check_logs(h, impl, case, csent, ssent, rep, tr):
+def check_logs(h, impl, case, csent, ssent, rep, tr, only=None):
     got_s = [a for t, e, s_, a in h.world.app_log.events if e == 'message']
     got_c = [a for t, e, a in h.log.events if e == 'message']
     for side, sent, got, ordered in (('client->server', csent, got_s, not case['async_handlers']),
                                      ('server->client', ssent, got_c, True)):
+        if only and side != only:
+            continue
         exp = [expected_arrival(x) for x in sent]
         if len(got) != len(exp) or not all_match(exp, got, ordered):
             missing = [e for e in exp if not any(rm.jeq(e, g) for g in got)]
